@@ -10,7 +10,7 @@ from .labels import csort, enc
 
 NODE_U = {
     "ints": [0, 1, 2, 3, 4, -2, -1, 1000],  # hash(-1) == hash(-2) in CPython; 1000 is not a cached small int
-    "strs": ["a", "b", "c", "d", "e", "1", "2", "zz"],
+    "strs": ["a", "b", "c", "d", "e", "1", "2", "zz", "ab"],  # "ab": also what iterating the string "ab" is not
     "mixed": [0, 1, 2, 3, "a", "b", "1", 4.0],
     "wide": list(range(14)),  # more than ten nodes: two-digit positions
     "large": list(range(40)),  # size thresholds
@@ -61,7 +61,7 @@ class Gen:
     def node_u(self):
         if self.cfg.get("unicode_labels") and self.profile == "strs":
             # multi-byte UTF-8 sequences, so that short reads / writes cut through characters
-            return NODE_U["strs"] + ["é", "日本", "ñu", "ß1"]
+            return NODE_U["strs"] + ["é", "日本", "ñu", "ß1", "\ufeffb"]  # (the last one starts with U+FEFF)
         return NODE_U[self.profile] + self._dict_words()
 
     def edge_u(self):
@@ -98,7 +98,7 @@ class Gen:
         u = [x for x in self.edge_u() if not (dh and isinstance(x, tuple))]
         return self.r.choice(u)
 
-    def members(self, model, lo=1, hi=4, p_existing=0.6):
+    def members(self, model, lo=1, hi=4, p_existing=0.6, tuples=False):
         if self.profile == "large" and hi == 4 and model.kind != "SC":
             hi = 9
         elif hi == 4 and self.cfg.get("max_members") and model.kind != "SC":
@@ -107,10 +107,14 @@ class Gen:
         out = []
         for _ in range(k):
             n = self.pick_node(model, p_existing)
-            if isinstance(n, tuple):
+            if isinstance(n, tuple) and not tuples:
                 # node labels that are tuples (they arise as nodes of a dual) are never sent
-                # through member lists: the bulk formats read a leading tuple as a members list
-                n = self.r.choice(self.node_u())
+                # through the member lists of *bulk* calls: the formats read a leading tuple as a
+                # members list
+                n = self.r.choice([x for x in self.node_u() if not isinstance(x, tuple)])
+            elif tuples and self.profile == "mixed" and self.r.random() < 0.15:
+                # (single adds only) two labels of one type that cannot be ordered against each other
+                n = self.r.choice([(0, 1), (0, "x")])
             if n not in out:
                 out.append(n)
         return out
@@ -306,7 +310,7 @@ class Gen:
 
     # ---------------------------------------------------------- Hypergraph
     def g_H_add_edge(self, name, m, op):
-        mem = self.members(m, 0 if self.r.random() < 0.04 else 1, 4)
+        mem = self.members(m, 0 if self.r.random() < 0.04 else 1, 4, tuples=True)
         idx = self.new_idx(m) if self.r.random() < self.cfg.get("explicit_idx_rate", 0.45) else None
         if self.r.random() < 0.03 and self.profile != "large":
             # the members are the network's own live view (H.add_edge(H.nodes) / H.add_edge(H.edges))
